@@ -41,6 +41,10 @@ FIXED_FRAGMENTS = [
     ["zq66 = [", "  100.zqnope,", "  2", "]"], ["zq67 = (100.zqnope)", "zq68 = true ? 100.zqnope : 2"], ["zq69 = {a: 100.zqnope, b: 2}"],
     ["zq70 = \"a#{100.zqnope}b\""], ["zq71 = 1", "zq71 = 100.zqnope if zq71 == 1"], ["zq72 = 100.zqnope while false"],
     ["[1].each { }"], ["zq73 = [1, 2].map { }", "zq73.length"], ["zq74 = 1.5.zqnope { }"], ["zq75 = zqnope(1) { 2 }"], ["zq76 = { 2 }"],
+    # union receivers of methods whose declared return depends on the receiver (Self, element type): one call must not leave its
+    # receiver's types in the shared declaration
+    ["zq80 = true ? \"ab\" : [1, 2]", "zq80 * 2"], ["zq81 = true ? [1, 2] : (1..3)", "zq82 = zq81.first", "zq81.max"],
+    ["zq83 = true ? [1.5] : {a: 1}", "zq83.length", "zq84 = true ? [1.5] : [:a, :b]", "zq84.shift", "zq84.last"],
     ["zq46 = %w(a b)", "zq47 = :sym"], ["zq48 = 1", "zq48 += 1", "zq48 ||= 2", "zq49 = !zq48.nil?"], ["return_zq = 1 if false"],
 ]
 
@@ -55,6 +59,7 @@ FIXED_HOSTS = [
     ("class Kq\n  attr_reader :v\n  def initialize(v = 1)\n    @v = v\n  end\n  private\n  def hid\n    @v\n  end\nend\nq = Kq.new\ndbtp q.v\nq.hid\n", [(4, 2), (8, 2), (11, 0), (13, 0)]),
     ("x = true ? 1 : nil\ncase x\nin Integer => n\n  dbtp n\nin nil\n  dbtp x\nend\ny = x.nil? ? 0 : x\ndbtp y\nif x.is_a?(Integer) && y > 0\n  dbtp x\nend\ndbtp x\n",
      [(2, 0), (4, 1), (8, 0), (10, 0), (11, 1)]),
+    ("pa = [\"ab\", \"cd\"]\ndbtp pa * 2\ndbtp pa.shift\ndbtp pa.last\npr = (\"a\"..\"c\")\ndbtp pr.first\ndbtp [\"x\"].max\ndbtp [:s].first\n", [(1, 0), (2, 0), (5, 0), (7, 0)]),
     ("h = {a: 1, b: \"s\"}\nh.each do |k, v|\n  dbtp k\n  dbtp v\nend\nz = h[:a]\ndbtp z\nm = h.merge({c: 1.5}) { |key, o, n| o }\ndbtp m\n", [(2, 0), (3, 1), (6, 0), (8, 0)]),
 ]
 
